@@ -13,6 +13,7 @@ import (
 	"bytes"
 	"fmt"
 	"io"
+	"io/ioutil"
 	"os"
 	"os/exec"
 	"reflect"
@@ -86,6 +87,22 @@ func onlyEmptyKindDiffers(a, b []byte) bool {
 	return n > 0
 }
 
+func diffCount(a, b []byte) int {
+	n := 0
+	for i := range a {
+		if i < len(b) && a[i] != b[i] {
+			n++
+		}
+	}
+	return n
+}
+
+// sameValue: e (the canonical re-encoding) decodes to the value v that b decoded to
+func (s *searcher) sameValue(t *Ty, e []byte, v reflect.Value) bool {
+	v2, ok := s.decode(t, e)
+	return ok && showVal(v2) == showVal(v)
+}
+
 // decode b into type t; ok=false on error. Panics are findings.
 func (s *searcher) decode(t *Ty, b []byte) (v reflect.Value, ok bool) {
 	s.evals++
@@ -133,7 +150,9 @@ func (s *searcher) canonical(t *Ty, b []byte) {
 	if !bytes.Equal(e, b) {
 		class := "other"
 		switch {
-		case hasNilTag(t) && onlyEmptyKindDiffers(e, b):
+		case hasNilTag(t) && onlyEmptyKindDiffers(e, b) && s.sameValue(t, e, v) && diffCount(e, b) <= strings.Count(","+showVal(v)+",", ",Z,"):
+			// the recorded finding and nothing else: both byte strings are accepted as the SAME value,
+			// they differ only in 80/c0, and at most as often as the value has nil pointers
 			class = "nil-ptr-empty-kind"
 		case hasByteArray1(t):
 			class = "byte-array-1"
@@ -246,6 +265,21 @@ func (s *searcher) sessionOracle(line string) {
 	for i, st := range steps {
 		f := strings.Split(st, ":")
 		switch f[0] {
+		case "fx", "rf":
+			want := alone(st)
+			if got[i] != want {
+				s.finding("shared-state:fault", line, fmt.Sprintf("step %d (%s) gave %s, on its own %s", i, f[0], clip(got[i]), clip(want)))
+				return
+			}
+		case "wf":
+			want := alone(st)
+			if got[i] != want || got[i] == "!x" {
+				s.finding("shared-state:fault", line, fmt.Sprintf("step %d (wf) gave %s, on its own %s (!x = a non-prefix reached the writer)", i, clip(got[i]), clip(want)))
+				return
+			}
+			if !strings.HasPrefix(got[i], "!") {
+				kept = append(kept, got[i])
+			}
 		case "eb", "ew", "en":
 			want := alone(st)
 			if got[i] != want {
@@ -343,6 +377,76 @@ func (s *searcher) concurrentOracle(r *hx.Rng) {
 	}
 }
 
+// specEncode: RLP as the specification writes it, independent of the package under test
+// (reference for the encoder itself: encoder and decoder changed consistently still differ from it).
+func specEncode(it interface{}) []byte {
+	switch x := it.(type) {
+	case []byte:
+		if len(x) == 1 && x[0] < 0x80 {
+			return []byte{x[0]}
+		}
+		return append(canonHeader(0x80, len(x)), x...)
+	case []interface{}:
+		var p []byte
+		for _, e := range x {
+			p = append(p, specEncode(e)...)
+		}
+		return append(canonHeader(0xc0, len(p)), p...)
+	}
+	panic("specEncode")
+}
+
+func (s *searcher) encodeSpec(it interface{}) {
+	s.evals++
+	want := specEncode(it)
+	got, err := rlp.EncodeToBytes(it)
+	var vt []string
+	itemText(it, &vt)
+	op := "enc any " + strings.Join(vt, ",")
+	if err != nil || !bytes.Equal(got, want) {
+		s.finding("encode:spec", op, "EncodeToBytes gives "+clip(hx.Hex(got))+", the specification "+clip(hx.Hex(want)))
+		return
+	}
+	var buf bytes.Buffer
+	if err := rlp.Encode(&buf, it); err != nil || !bytes.Equal(buf.Bytes(), want) {
+		s.finding("encode:spec-writer", op, "Encode(w) gives "+clip(hx.Hex(buf.Bytes()))+", the specification "+clip(hx.Hex(want)))
+		return
+	}
+	n, rd, err := rlp.EncodeToReader(it)
+	if err == nil {
+		b, _ := ioutil.ReadAll(rd)
+		if n != len(want) || !bytes.Equal(b, want) {
+			s.finding("encode:spec-reader", op, fmt.Sprintf("EncodeToReader announces %d and yields %s, the specification %s", n, clip(hx.Hex(b)), clip(hx.Hex(want))))
+		}
+	}
+}
+
+// history: the plain/tail slice coders of a fresh pair of types must answer the same whatever was
+// generated first (the type cache is process-local history).
+func (s *searcher) historyOracle(r *hx.Rng, elem *Ty, n int) {
+	var first string
+	var firstLine string
+	seed := r.U64()
+	for _, o := range histOrders {
+		line := histOp(hx.NewRng(seed), o, elem, n) // same value for every order
+		s.evals++
+		w := strings.Fields(line)
+		got := hx.Guard(func() string { return runHist(w[1], w[2], w[3], w[4], w[5]) })
+		if strings.HasPrefix(got, "PANIC") {
+			s.finding("history:panic", line, got)
+			return
+		}
+		if first == "" {
+			first, firstLine = got, line
+			continue
+		}
+		if got != first {
+			s.finding("history:type-order", line, "order "+o+" answers "+clip(got)+" but order "+strings.Fields(firstLine)[1]+" on an equally fresh pair of types answers "+clip(first)+" (P;T;p;t = plain enc; tail enc; plain dec; tail dec)")
+			return
+		}
+	}
+}
+
 // alloc: bytes allocated while decoding b into interface{} / []byte stay proportional to len(b).
 func (s *searcher) alloc(t *Ty, b []byte) {
 	// building the reflect type and filling rlp's type cache allocate a lot and are not part
@@ -419,6 +523,18 @@ func probeMain(a map[string]string) {
 	fmt.Println("PROBE " + res)
 }
 
+// concMain: only the concurrent phase (built with -race in the thorough tier; the race detector
+// reports on stderr and makes the process exit non-zero). Evidence, not proof.
+func concMain(a map[string]string) {
+	r := hx.NewRng(hx.SeedFromEnv() ^ 0xc0c0)
+	s := &searcher{distinct: map[string]bool{}, found: map[string]int{}}
+	n := hx.ArgInt(a, "rounds", 20)
+	for i := 0; i < n; i++ {
+		s.concurrentOracle(r)
+	}
+	fmt.Printf("CONC {\"sessions\":%d,\"findings\":%d}\n", s.evals, len(s.found))
+}
+
 func searchMain(a map[string]string) {
 	thorough := a["tier"] == "thorough"
 	noPtrRaw = true
@@ -466,6 +582,26 @@ func searchMain(a map[string]string) {
 		s.canonical(t, b)
 	}
 
+	// process-local history (type cache), deterministic small family, before anything can loop
+	{
+		hr := hx.NewRng(hx.SeedFromEnv() ^ 0x4157)
+		for _, es := range []string{"u16", "bytes", "a2", "big", "S,u64", "any"} {
+			elem, _ := tyOf(es)
+			for _, n := range []int{0, 1, 3} {
+				s.historyOracle(hr, elem, n)
+			}
+		}
+	}
+	// the encoder against the specification (independent reference), boundary payload lengths first
+	for _, n := range []int{0, 1, 2, 54, 55, 56, 57, 255, 256, 257, 65535, 65536} {
+		b := bytes.Repeat([]byte{0x80}, n)
+		s.encodeSpec(b)
+		s.encodeSpec([]interface{}{b})
+		s.encodeSpec([]interface{}{[]interface{}{b}, []byte{0x00}, []byte{0x7f}, []byte{}})
+		if n > 0 {
+			s.encodeSpec([]interface{}{b[:n-1], []byte{0x01}})
+		}
+	}
 	// shared library state: the interleaving of the round-2 seeded class first, then random sessions
 	s.sessionOracle("api er:a:R3,u64,bytes,S,str:L3,N7,B" + strings.Repeat("aa", 70) + ",L2,B616c706861,B62657461;eb:R3,u64,bytes,S,str:L3,N9,B" + strings.Repeat("55", 90) + ",L1,B78;dr:a;chk")
 	s.sessionOracle("api er:a:S,u64:L3,N1,N2,N3;dr:a;en:b:L3,B61,L3,N1,N2,N3,N9;en:r:L3,B61,L3,N1,N2,N3,N9;chk")
@@ -593,6 +729,10 @@ func searchMain(a map[string]string) {
 		}
 		if round%4 == 0 {
 			s.sessionOracle(genApiSession(r))
+			s.encodeSpec(randItem(r, 4, thorough))
+		}
+		if round%16 == 0 {
+			s.historyOracle(r, genTy(r, 1), r.Pick(0, 1, 2, 4))
 		}
 		if round%64 == 0 {
 			s.concurrentOracle(r)
